@@ -1337,18 +1337,18 @@ pub fn unify(
 
         // Concrete union with pattern non-union - pattern must match one variant
         (_, Type::Union(variants)) => {
+            // The argument may be any of its variants at run time, so every one of them must be
+            // acceptable to the (non-union) parameter.
             let variants = variants.clone();
             for &variant in &variants {
-                let mut temp_bindings = bindings.clone();
-                if unify(&mut temp_bindings, pattern_id, variant, program).is_ok() {
-                    *bindings = temp_bindings;
-                    return Ok(());
-                }
+                unify(bindings, pattern_id, variant, program).map_err(|_| {
+                    Error::TypeUnresolved(format!(
+                        "Cannot unify pattern with concrete union ({} variants)",
+                        variants.len()
+                    ))
+                })?;
             }
-            Err(Error::TypeUnresolved(format!(
-                "Cannot unify pattern with concrete union ({} variants)",
-                variants.len()
-            )))
+            Ok(())
         }
 
         // All other combinations are incompatible
